@@ -49,6 +49,9 @@ def applyTok (r : RawInfo) (t : String) : Option RawInfo :=
   | [k, v] =>
     match k with
     | "empty" => some r
+    | "route" => some r
+    | "files" => some r
+    | "req" => some r
     | "d" => (unhexStr v).map fun s => { r with created := some s }
     | "g" => (parseList parseInt "," v).map fun l => { r with gasp := some l }
     | "gl" => (parseList parseGuide ";" v).map fun l => { r with guidelines := some l }
@@ -94,6 +97,50 @@ def run (inp obs : List String) : Verdict :=
       | none => true
     let memOK := identsOK && raw.winCharSet.isNone
     let info? := inMemory raw
+    -- the glue stream: route x other files x entry point; what else is in the tree and what was requested must not
+    -- matter: the font info is accepted iff it is well typed and satisfies the rules, and a returned font validates
+    match (inp.drop 1).find? (·.startsWith "route=") with
+    | some routeTok =>
+      let route := (routeTok.drop 6).toString
+      let zerosG (n : Nat) : List Nat := List.replicate n 0
+      let lists : List (String × String × Option Nat) :=
+        [("postscriptBlueValues", "blueValues", raw.blueValues), ("postscriptOtherBlues", "otherBlues", raw.otherBlues),
+         ("postscriptFamilyBlues", "familyBlues", raw.familyBlues),
+         ("postscriptFamilyOtherBlues", "familyOtherBlues", raw.familyOtherBlues),
+         ("postscriptStemSnapH", "hStems", raw.stemSnapH), ("postscriptStemSnapV", "vStems", raw.stemSnapV)]
+      let accepted : Bool :=
+        if route = "v3" then (match loadInfo raw with | .loaded _ => identsOK | _ => false)
+        else if route = "v2" then
+          let attrs : List (String × _root_.C14.Val) :=
+            (match raw.created with | some d => [("openTypeHeadCreated", _root_.C14.Val.str (String.ofList d))] | none => []) ++
+            (match raw.selection with | some l => [("openTypeOS2Selection", _root_.C14.Val.ints l)] | none => []) ++
+            (match raw.familyClass with | some l => [("openTypeOS2FamilyClass", _root_.C14.Val.ints l)] | none => []) ++
+            lists.filterMap fun (k, _, n) => n.map fun n => (k, _root_.C14.Val.nums (zerosG n))
+          (match _root_.C14.fromFile 2 attrs with | .ok _ => true | .error _ => false)
+        else
+          let hint : List (String × _root_.C14.Val) := (lists.zipIdx).filterMap fun ((_, k, n), idx) =>
+            n.map fun n => (k, if idx < 4 then _root_.C14.Val.numss [zerosG n] else _root_.C14.Val.nums (zerosG n))
+          (match _root_.C14.load { fmt := 1, attrs := [("familyName", .str "F")], hasLib := true, robofab := { hint := some hint } } with
+           | .ok _ => true | .error _ => false)
+      let modelOut := if accepted then "g=loaded" else "g=rejected"
+      let oG := obsField obs "g"
+      let iG := headOf oG
+      let implOut := "g=" ++ iG
+      let viol : List String := match info? with | some i => violated i | none => []
+      let feats := ",".intercalate viol
+      let spec : List String :=
+        (if iG = "panic" then ["load-panics"] else []) ++
+        (if oG.startsWith "loaded:invalid" || oG.startsWith "loaded:validate-panics" then ["loaded-info-invalid:" ++ feats] else []) ++
+        (if iG = "loaded" && (info?.isNone || !viol.isEmpty) then ["load-accepts-violation:" ++ feats] else []) ++
+        (if iG = "rejected" && info?.isSome && viol.isEmpty && identsOK then ["load-rejects-conforming"] else []) ++
+        (if iG = "unrelated-error" then ["unexpected-error-class"] else [])
+      let tags := ["glue", "route-" ++ route, "g-" ++ iG, if viol.isEmpty then "conforming" else "violating"] ++
+        (inp.drop 1).filterMap (fun t => if t.startsWith "req=" then some ("req-" ++ (t.drop 4).toString) else none) ++
+        (match (inp.drop 1).find? (·.startsWith "files=") with
+         | some t => ((t.drop 6).toString.splitOn ",").map ("file-" ++ ·)
+         | none => []) ++ viol.map ("viol-" ++ ·) ++ ["nt"]
+      { agree := modelOut == implOut, spec := spec, tags := tags, model := modelOut }
+    | none =>
     -- model
     let mV := match info? with
       | some i => if memOK then (match validate i with | .ok => "ok" | .err _ => "err" | .panic => "panic") else "na"
